@@ -1,9 +1,12 @@
-//! Tie of the Lean model of one grcov run (`Cli.run`, lean/GrcovModel/Cli.lean; driver op
-//! `cli.run`) to the real binary: the same configuration, the same file system (the case directory
+//! Tie of the Lean model of one grcov run (`Cli.runJ`, lean/GrcovModel/Cli.lean: the run WITH the
+//! Java/Kotlin partial-path lookup; driver op `cli.runj`) to the real binary: the walk order of the
+//! source directory is what `std::fs::read_dir` yields (`walk_order`: what `walkdir` uses when no
+//! sorting is configured), never read off the report; the same configuration, the same file system (the case directory
 //! scanned and passed as the model's FS parameter) and the same input bytes; the two lcov reports
-//! are compared section by section – byte for byte where a file has at most one function, with
-//! the FN / FNDA lines of a file sorted otherwise (they come out in hash-map order), sections as a
-//! multiset (the result map is a hash map too).
+//! are compared section by section – every section byte for byte (since 73c9152 the FN / FNDA
+//! lines of a file come out in name order, which the model computes itself: `Cli.sortFns`; no
+//! function order is read off the real report), the sections as a multiset (the result map is a
+//! hash map), the whole report byte for byte when it has a single section.
 use corrlib::*;
 use std::path::Path;
 
@@ -61,12 +64,32 @@ pub fn scan_fs(cwd: &Path) -> (Vec<String>, Vec<String>) {
     (dirs, files)
 }
 
+/// the entries below `root` in the order an unsorted walk yields them (pre-order, children in
+/// `readdir` order), as absolute paths; symbolic links are listed but not followed
+pub fn walk_order(root: &Path, out: &mut Vec<String>) {
+    out.push(root.to_str().unwrap().to_string());
+    let is_dir = std::fs::symlink_metadata(root).map(|m| m.is_dir()).unwrap_or(false);
+    if is_dir {
+        if let Ok(rd) = std::fs::read_dir(root) {
+            for e in rd.flatten() {
+                walk_order(&e.path(), out);
+            }
+        }
+    }
+}
+
 pub fn cli_request(cfg: &CliCfg, cwd: &Path, inputs: &[Vec<u8>]) -> String {
     let (dirs, files) = scan_fs(cwd);
+    let mut ord = vec![];
+    match &cfg.source_dir {
+        Some(s) => walk_order(Path::new(s), &mut ord),
+        None => ord.push(cwd.to_str().unwrap().to_string()),
+    }
     // main.rs: `prefix_dir = opt.prefix_dir.or_else(|| source_root.clone())`
     let pd = cfg.prefix_dir.clone().or_else(|| cfg.source_dir.clone());
     let mut s = format!(
-        "cli.run B{} {} {} M- {} {} E{} F{} W{} {} {} |",
+        "cli.runj {} B{} {} {} M- {} {} E{} F{} W{} {} {} |",
+        list_arg('O', 'p', &ord),
         if cfg.branch { 1 } else { 0 },
         opt_arg('S', &cfg.source_dir),
         opt_arg('P', &pd),
@@ -88,40 +111,23 @@ pub fn cli_request(cfg: &CliCfg, cwd: &Path, inputs: &[Vec<u8>]) -> String {
     s
 }
 
-/// (canonical sections, exact): the sections of an lcov report as a sorted multiset; inside a
-/// section with several functions the FN lines and the FNDA lines are sorted (hash-map order)
+/// (sections, exact): the sections of an lcov report, each with its lines in the order written,
+/// as a sorted multiset; `exact` = at most one section (then the whole report is compared)
 pub fn canon_report(text: &str) -> (Vec<String>, bool) {
     let mut secs = vec![];
-    let mut exact = true;
     let mut cur: Option<Vec<String>> = None;
     for line in text.lines() {
         if line.starts_with("SF:") {
             cur = Some(vec![line.to_string()]);
         } else if line == "end_of_record" {
-            if let Some(mut v) = cur.take() {
-                let mut fns: Vec<String> = v.iter().filter(|l| l.starts_with("FN:")).cloned().collect();
-                let mut fndas: Vec<String> = v.iter().filter(|l| l.starts_with("FNDA:")).cloned().collect();
-                if fns.len() > 1 {
-                    exact = false;
-                    fns.sort();
-                    fndas.sort();
-                    v.retain(|l| !l.starts_with("FN:") && !l.starts_with("FNDA:"));
-                    let sf = v.remove(0);
-                    let mut w = vec![sf];
-                    w.extend(fns);
-                    w.extend(fndas);
-                    w.extend(v);
-                    v = w;
-                }
+            if let Some(v) = cur.take() {
                 secs.push(v.join("\n"));
             }
         } else if let Some(v) = cur.as_mut() {
             v.push(line.to_string());
         }
     }
-    if secs.len() > 1 {
-        exact = false;
-    }
+    let exact = secs.len() <= 1;
     secs.sort();
     (secs, exact)
 }
@@ -136,10 +142,10 @@ pub fn compare(model_answer: &str, real_stdout: &str) -> Option<String> {
     let (ms, exact) = canon_report(&model_text);
     let (rs, _) = canon_report(real_stdout);
     if exact && model_text != real_stdout {
-        return Some("the reports differ byte for byte (single file, at most one function)".into());
+        return Some("the reports differ byte for byte (single section)".into());
     }
     if ms != rs {
-        return Some("the reports differ as multisets of sections".into());
+        return Some("the reports differ as multisets of sections (each section compared line by line, FN/FNDA order included)".into());
     }
     None
 }
